@@ -102,7 +102,6 @@ M64 = (1 << 64) - 1
 PRELUDE = """#include <stdio.h>
 #include <string.h>
 #include <stdarg.h>
-void *alloca(unsigned long);
 #define TN(e) _Generic((e), _Bool:"B", char:"c", signed char:"sc", unsigned char:"uc", short:"s", unsigned short:"us", \\
   int:"i", unsigned:"u", long:"l", unsigned long:"ul", long long:"ll", unsigned long long:"ull", float:"f", double:"d", long double:"ld", default:"?")
 #define U64(e) ((unsigned long long)(e))
